@@ -20,7 +20,9 @@ RULE = (
     "pruning of emptied directories, add file, touch of independent copies, replace a file by a hard/symbolic "
     "link to an outside file with the same or other content) with harness-owned mtimes (os.utime(ns=...) from "
     "drawn deltas, stat triple verified to change), the configured type L2 in {[copy],[hardlink],[symlink],"
-    "[reflink,copy]} and a plan (forced checkout, repeat, relinking checkout, repeat | forced relinking checkout, "
+    "[reflink,copy]}, cache history steps between checkouts (an object re-created through the store's add path: same "
+    "oid and bytes, new inode; an object missing during an earlier checkout attempt and added afterwards - the "
+    "harness's own re-creation lies outside every before/after snapshot pair) and a plan (forced checkout, repeat, relinking checkout, repeat | forced relinking checkout, "
     "repeat, plain checkout). Oracle: os.walk snapshot (bytes, mode) of every cache object equal before/after "
     "every call; forced checkout => workspace files == target exactly; repeated plain checkout returns None and "
     "changes no lstat field of any workspace path; after a relinking checkout every file is of type L2 by "
@@ -98,6 +100,20 @@ def cases(draw, max_files=8):
         case["l2"] = draw(st.sampled_from(TYPE_NAMES[2:] + TYPE_NAMES[:2]))  # second chance for a real type change
     case["plan"] = draw(st.sampled_from(["relink-first", "force-first", "force-first"]))
     case["edits"] = draw(edits(shape == "tree"))
+    # history steps on the cache between checkouts: an object re-created (same oid and bytes, new inode, added
+    # through the store's add path) or missing during an earlier checkout attempt and added afterwards
+    case["cache_ops"] = []
+    for _ in range(draw(st.sampled_from([0, 1, 0, 2, 1, 0]))):
+        case["cache_ops"].append({
+            "op": draw(st.sampled_from(["recreate", "missing", "recreate"])),
+            "i": draw(st.integers(0, 30)),
+            "when": draw(st.sampled_from(["pre3", "mid", "pre3"])),
+        })
+    if any(o["op"] == "recreate" for o in case["cache_ops"]) and draw(st.sampled_from([True, False, True])):
+        # a replaced object matters most to files that are hard links to the old inode
+        case["l1"] = "hardlink"
+        if draw(st.booleans()):
+            case["l2"] = "hardlink"
     return case
 
 
@@ -303,6 +319,8 @@ def run_case(case, ctx):
                 if wrong:
                     viols.append(Viol(f"bytes:{label}", f"after {label} checkout {wrong[0]!r} does not hold the target's bytes"))
 
+            cache_touched = [False]
+
             def check_types(label, want):
                 snap = snap_ws(ws)
                 seen = set()
@@ -316,7 +334,10 @@ def run_case(case, ctx):
                         seen.add((want, got))
                         viols.append(Viol(f"linktype:want={want}:got={got}:{label}",
                                           f"after {label} checkout {rel!r} is a {got} (nlink={r['nlink']}), configured type is {want}"))
-                    if ok and want == "copy" and local and r["mode"] == 0o444 and "ro" not in seen:
+                    # (not judged once the harness replaced a cache object: a former hard link to the replaced
+                    # object is an independent file that still carries the old object's mode)
+                    if ok and want == "copy" and local and r["mode"] == 0o444 and "ro" not in seen \
+                            and not cache_touched[0]:
                         seen.add("ro")
                         viols.append(Viol(f"copy-readonly:{label}", f"after {label} checkout the copy {rel!r} is read-only (0o444)"))
 
@@ -436,6 +457,57 @@ def run_case(case, ctx):
                     classes.append("single-file-still-linked")
                     if case["l2"] == "copy" and not local:
                         classes.append("single-file-still-linked:[copy]:generic")
+            oids = sorted(set(manifest.values()))
+
+            def drop_object(i):
+                cache_touched[0] = True
+                oid = oids[i % len(oids)]
+                p = cpath(oid)
+                data, old_ino = ref.read(p), os.lstat(p).st_ino
+                os.unlink(p)
+                return oid, data, old_ino
+
+            def add_object(oid, data):
+                naux[0] += 1
+                tmp = os.path.join(aux, f"re{naux[0]}")
+                with open(tmp, "xb") as f:
+                    f.write(data)
+                odb2.add(tmp, fs, oid)  # the store's own add path: same oid, new file, protected
+                if ref.read(cpath(oid)) != data:
+                    raise HarnessError("re-added cache object does not hold its bytes")
+
+            def cache_ops(when):
+                for o in case.get("cache_ops", []):
+                    if o["op"] == "recreate" and o["when"] == when:
+                        oid, data, old_ino = drop_object(o["i"])
+                        add_object(oid, data)
+                        classes.append(f"cache-object-recreated:{when}")
+                        if any(r["kind"] == "file" and r["ino"] == old_ino for r in snap_ws(ws).values()):
+                            classes.append("ws-hardlink-to-replaced-object")
+                    elif o["op"] == "missing" and when == "pre3":
+                        # a checkout attempt while one object is missing (CheckoutError / partial result allowed),
+                        # then the object is added and the judged checkouts follow
+                        oid, data, _ = drop_object(o["i"])
+                        before = snap_cache(cache_dir)
+                        try:
+                            checkout(ws, fs, target, odb2, state=state, force=True)
+                            classes.append("attempt-with-missing-object:returned")
+                        except (CheckoutError, FileNotFoundError) as exc:
+                            # the premise "cached target" does not hold for this attempt: any refusal is accepted
+                            # (a single-file target under state surfaces the failed link as FileNotFoundError
+                            # from the link-record step instead of CheckoutError - noted, not judged)
+                            classes.append(f"attempt-with-missing-object:{type(exc).__name__}")
+                        except (LinkError, PromptError) as exc:
+                            viols.append(Viol(f"raised:attempt:{type(exc).__name__}",
+                                              f"checkout attempt with a missing object raised {type(exc).__name__}"))
+                        cd_ = cache_diff(before, snap_cache(cache_dir), local)
+                        if cd_:
+                            viols.append(Viol(f"cache-changed:{cd_[0]}:attempt", f"attempt with a missing object: {cd_[1]}"))
+                        add_object(oid, data)
+
+            cache_ops("pre3")
+            if viols:
+                return Result(viols, False, classes)
             if case["plan"] == "force-first":
                 r = call("forced", odb2, target, force=True)
                 if r != "raised":
@@ -447,6 +519,7 @@ def run_case(case, ctx):
                         viols.append(Viol("repeat-not-noop", f"second checkout returned {r!r}, expected None (nothing to do)"))
                     _same_snapshot(viols, s0, snap_ws(ws), "repeat")
                 if not viols:
+                    cache_ops("mid")
                     # precondition of observation 6.2 #7, for the histogram
                     snap = snap_ws(ws)
                     if any(r["kind"] == "symlink" and os.stat(full(rel)).st_nlink > 1 for rel, r in snap.items()
@@ -468,6 +541,7 @@ def run_case(case, ctx):
                         check_equal("relink2")
                         check_types("relink2", l2)
                 if not viols:
+                    cache_ops("mid")
                     s0 = snap_ws(ws)
                     r = call("repeat", odb2, target, force=True)
                     if r not in (None, "raised"):
